@@ -71,6 +71,14 @@ impl Params {
         }
         Ok(Params { m_cost, t_cost, p_cost })
     }
+    /// model helper for contract stubs: the parameter-validity rule of `Params::new` as a predicate
+    pub const fn model_valid(m_cost: u32, t_cost: u32, p_cost: u32) -> bool {
+        m_cost >= Params::MIN_M_COST && m_cost >= p_cost.wrapping_mul(8) && t_cost >= Params::MIN_T_COST && p_cost >= Params::MIN_P_COST && p_cost <= Params::MAX_P_COST
+    }
+    /// model helper for contract stubs: build without the (already established) validity check
+    pub const fn model_unchecked(m_cost: u32, t_cost: u32, p_cost: u32) -> Params {
+        Params { m_cost, t_cost, p_cost }
+    }
     pub const fn m_cost(&self) -> u32 {
         self.m_cost
     }
